@@ -120,3 +120,68 @@ pub fn eval_ofint(case: &J) -> Outcome {
     if n.unsigned_abs() < (1 << 53) { out.tag("trivial"); }
     out
 }
+
+// ------------------------------------------------------------------------------------------------
+// stream `injbase`: the typed base injections between numeric variants (Float<->Integer, Boolean->Integer, Integer->Text...)
+// exercised directly through `injection::From(domain).into(co_domain)`
+
+pub fn gen_base(rng: &mut Rng, k: usize, _tier: &str) -> J {
+    let pair = *rng.pick(&["f2i", "i2f", "b2i", "i2t", "f2t"]);
+    let extremes = k % 2 == 0;
+    // finite value sets (the case in which lossy-looking conversions are accepted) and intervals
+    let floats: Vec<f64> = (0..1 + rng.below(3)).map(|_| match rng.below(10) {
+        0 => *rng.pick(&[1e19, 2e19, 9223372036854775808.0, 9223372036854777856.0, -9223372036854775808.0, -9223372036854777856.0, 1e300, -1e300, f64::MAX, f64::MIN, 1.8446744073709552e19]),
+        1 => *rng.pick(&[9007199254740992.0, 9007199254740994.0, -9007199254740992.0, 4611686018427387904.0]),
+        2 | 3 => rng.range(-8, 16) as f64 * 0.5,
+        _ => rng.range(-1000, 1000) as f64 }).collect();
+    let ints: Vec<i64> = (0..1 + rng.below(3)).map(|_| int_bound(rng, extremes)).collect();
+    json!({"pair": pair, "floats": floats, "ints": ints, "bools": [rng.chance(1, 2), rng.chance(1, 2)]})
+}
+
+pub fn eval_base(case: &J) -> Outcome {
+    use qrlew::data_type::{self, injection};
+    let mut out = Outcome::new();
+    let pair = case["pair"].as_str().unwrap();
+    out.tag(&format!("pair={pair}"));
+    let floats: Vec<f64> = case["floats"].as_array().unwrap().iter().map(|x| x.as_f64().unwrap()).collect();
+    let ints: Vec<i64> = case["ints"].as_array().unwrap().iter().map(|x| x.as_i64().unwrap()).collect();
+    let bools: Vec<bool> = case["bools"].as_array().unwrap().iter().map(|x| x.as_bool().unwrap()).collect();
+    // generic driver over one typed injection
+    fn drive<D: Variant + Clone + std::fmt::Display, C: Variant + Clone + std::fmt::Display>(out: &mut Outcome, name: &str, dom: D, cod: C, vals: Vec<D::Element>,
+        exact: &dyn Fn(&D::Element, &C::Element) -> bool, class: &dyn Fn(&D::Element) -> &'static str)
+        where injection::Base<D, C>: Injection<Domain = D, CoDomain = C>, D::Element: Clone + PartialEq + std::fmt::Display, C::Element: Clone + PartialEq + std::fmt::Display {
+        let inj = match guarded(|| injection::From(dom.clone()).into(cod.clone())) { Ok(Ok(i)) => i, Ok(Err(_)) => { out.tag("trivial"); out.tag("no-injection"); return; }
+            Err((loc, msg)) => { out.tag("trivial"); out.fail(&format!("C18/injbase/{name}/panic/{}", site_file(&loc)), msg); return; } };
+        let img = guarded(|| inj.super_image(&dom));
+        let accepted = matches!(img, Ok(Ok(_)));
+        out.tag(if accepted { "accepted" } else { "refused" });
+        let mut images: Vec<(D::Element, C::Element)> = vec![];
+        for v in &vals {
+            let cls = class(v);
+            match guarded(|| inj.value(v)) {
+                Ok(Ok(w)) => {
+                    if !exact(v, &w) { out.fail(&format!("C12/injbase/{name}/value-not-preserved/{cls}"), format!("{v} of {dom} converts to {w}: the value changed (a lossy conversion must be refused)")); }
+                    if let Ok(Ok(t)) = &img { if !guarded(|| t.contains(&w)).unwrap_or(true) { out.fail(&format!("C12/injbase/{name}/image-not-in-super-image/{cls}"), format!("{v} of {dom} converts to {w}, outside the converted type {t}")); } }
+                    images.push((v.clone(), w));
+                }
+                Ok(Err(_)) => { if accepted { out.fail(&format!("C12/injbase/{name}/not-total/{cls}"), format!("{dom} converts into {cod} (super_image succeeds) but its member {v} is refused")); } }
+                Err((loc, msg)) => out.fail(&format!("C18/injbase/{name}/value-panic/{}", site_file(&loc)), msg),
+            }
+        }
+        for i in 0..images.len() { for j in 0..i { if images[i].0 != images[j].0 && images[i].1 == images[j].1 {
+            let cls = if class(&images[i].0) != "-" { class(&images[i].0) } else { class(&images[j].0) };
+            out.fail(&format!("C12/injbase/{name}/not-injective/{cls}"), format!("{} and {} of {dom} both convert to {}", images[i].0, images[j].0, images[i].1)); } } }
+        if images.is_empty() { out.tag("trivial"); }
+    }
+    use qrlew::data_type::value as v;
+    match pair {
+        "f2i" => drive(&mut out, "Float->Integer", data_type::Float::from_values(floats.clone()), data_type::Integer::default(), floats.iter().map(|x| v::Float::from(*x)).collect(),
+                       &|a, b| **a == **b as f64 && (**b as f64) as i128 == **b as i128 && (**a).abs() < 9.3e18 && ((**a) as i128 == **b as i128), &|a| if a.abs() == 9223372036854775808.0 { "at-2p63" } else if a.abs() > 9223372036854775808.0 { "beyond-i64" } else if a.abs() > 9007199254740992.0 { "huge" } else { "-" }),
+        "i2f" => drive(&mut out, "Integer->Float", data_type::Integer::from_values(ints.clone()), data_type::Float::default(), ints.iter().map(|x| v::Integer::from(*x)).collect(),
+                       &|a, b| (**b) as i128 == **a as i128 && b.fract() == 0.0, &|a| if (**a as i128).abs() > (1i128 << 53) { "huge" } else { "-" }),
+        "b2i" => drive(&mut out, "Boolean->Integer", data_type::Boolean::from_values(bools.clone()), data_type::Integer::default(), bools.iter().map(|x| v::Boolean::from(*x)).collect(), &|a, b| **b == **a as i64, &|_| "-"),
+        "i2t" => drive(&mut out, "Integer->Text", data_type::Integer::from_values(ints.clone()), data_type::Text::default(), ints.iter().map(|x| v::Integer::from(*x)).collect(), &|a, b| b.parse::<i64>().ok() == Some(**a), &|_| "-"),
+        _ => drive(&mut out, "Float->Text", data_type::Float::from_values(floats.clone()), data_type::Text::default(), floats.iter().map(|x| v::Float::from(*x)).collect(), &|a, b| b.parse::<f64>().ok() == Some(**a), &|a| if **a == 0.0 { "signed-zero" } else { "-" }),
+    }
+    out
+}
